@@ -157,6 +157,61 @@ def clip_guard(src):
     raise Unparsed('LaplaceTransformer.term.clip_step not found')
 
 
+def _method(src, name):
+    import warnings
+    with warnings.catch_warnings():
+        warnings.simplefilter('ignore')
+        tree = ast.parse(src)
+    for node in tree.body:
+        if isinstance(node, ast.ClassDef) and node.name == 'LaplaceTransformer':
+            for f in node.body:
+                if isinstance(f, ast.FunctionDef) and f.name == name:
+                    return f
+    raise Unparsed('LaplaceTransformer.%s not found' % name)
+
+
+def deriv_applies_shift(src):
+    """`derivative_undef`: is the transform of the differentiated function obtained with `self.func(<the function>, t, s)`
+    (similarity and shift theorems applied to x(a t + b)) or written as `func1(s)` whatever the argument?
+    Recognised forms of the statement  result = <F> * s ** order :
+        F = func1(s)                          -> False
+        F = self.func(<expr.args[0] | v>, t, s) -> True    (v assigned from expr.args[0])"""
+    f = _method(src, 'derivative_undef')
+    found = None
+    for node in ast.walk(f):
+        if isinstance(node, ast.Assign) and len(node.targets) == 1 and ast.unparse(node.targets[0]) == 'result':
+            txt = ast.unparse(node.value)
+            if txt == 'func1(s) * s ** order':
+                found = (False, node.lineno)
+            elif txt in ('self.func(v, t, s) * s ** order', 'self.func(expr.args[0], t, s) * s ** order'):
+                ok = txt.startswith('self.func(expr.args[0]') or any(
+                    isinstance(a, ast.Assign) and ast.unparse(a) == 'v = expr.args[0]' for a in ast.walk(f))
+                if ok:
+                    found = (True, node.lineno)
+    if found is None:
+        raise Unparsed('derivative_undef: statement `result = ... * s ** order` not recognised')
+    return found
+
+
+def delta_undef_sifts(src):
+    """branch `DiracDelta(..) * x(t)` of `term`: does it apply the sifting property
+    (`const * fun.subs(t, tau) * sym.exp(-s * tau) / abs(scale)` with `tau = -shift / scale`) or return `expr.args[1]`?"""
+    f = _method(src, 'term')
+    for node in ast.walk(f):
+        if isinstance(node, ast.If):
+            test = ast.unparse(node.test)
+            if 'sym.DiracDelta' in test and 'AppliedUndef' in test and 'expr.args[0]' in test:
+                rets = [ast.unparse(r.value) for r in ast.walk(node) if isinstance(r, ast.Return) and r.value is not None]
+                asg = [ast.unparse(a) for a in ast.walk(node) if isinstance(a, ast.Assign)]
+                if rets == ['expr.args[1]']:
+                    return False, node.lineno
+                if ('const * fun.subs(t, tau) * sym.exp(-s * tau) / abs(scale)' in rets and 'tau = -shift / scale' in asg
+                        and 'scale, shift = scale_shift(delta.args[0], t)' in asg and 'delta, fun = expr.args' in asg):
+                    return True, node.lineno
+                raise Unparsed('term: DiracDelta * undefined-function branch has an unrecognised body')
+    raise Unparsed('term: DiracDelta * undefined-function branch not found')
+
+
 def generate(repo):
     path = os.path.join(repo, 'lcapy', 'laplace.py')
     src = open(path).read()
@@ -208,6 +263,21 @@ def generate(repo):
         lines.append('/-- clip_step: NOT TRANSLATED (see unparsed) -/')
         lines.append('def clipGuard [LE K] [DecidableLE K] (scale shift : K) : Bool := false')
         lines.append('def clipGuardTranslated : Bool := false')
+    for (nm, fn, doc) in (('derivAppliesShift', deriv_applies_shift,
+                           '`derivative_undef` (laplace.py:%d) applies the similarity/shift theorems to the differentiated function x(a t + b)'),
+                          ('deltaUndefSifts', delta_undef_sifts,
+                           'the `DiracDelta * x(t)` branch of `term` (laplace.py:%d) applies the sifting property')):
+        try:
+            val, lineno = fn(src)
+            lines.append('/-- %s -/' % (doc % lineno))
+            lines.append('def %s : Bool := %s' % (nm, 'true' if val else 'false'))
+            lines.append('def %sTranslated : Bool := true' % nm)
+            defs.append(nm)
+        except (Unparsed, SyntaxError) as e:
+            unparsed.append(str(e))
+            lines.append('/-- %s: NOT TRANSLATED (see unparsed) -/' % nm)
+            lines.append('def %s : Bool := false' % nm)
+            lines.append('def %sTranslated : Bool := false' % nm)
     lines.append('')
     lines.append('end Lcapy.Laplace.Gen')
     return '\n'.join(lines) + '\n', {'defs': defs, 'unparsed': unparsed}
